@@ -1684,8 +1684,8 @@ impl Property for C10 {
     }
     fn components(&self) -> serde_json::Value {
         json!({
-            "real": ["WorkerTree (collect_work, process, source_changed, add_source, remove_source, clean_files, configuration hash)", "Worker", "WorkCache", "Configuration (json5)", "all rules", "bundler", "path locators", "parser", "3 generators", "Source::Memory arm (1/6 of L1 runs)"],
-            "stub": ["Source::FileSystem arm (std::fs) -> SimFs via hook H1", "L1: FileWatcher::process_events replaced by the protocol table of DESIGN.md 4.2"],
+            "real": ["WorkerTree (collect_work, process, source_changed, add_source, remove_source, clean_files, configuration hash)", "Worker", "WorkCache", "Configuration (json5)", "all rules", "bundler", "path locators", "parser", "3 generators", "Source::Memory arm (1/6 of L1 runs)", "Source::FileSystem arm itself in the real-file-system stratum (the last 320 / 12 000 L1 histories of a batch, scratch directory on /dev/shm) and under layer LW"],
+            "stub": ["Source::FileSystem arm (std::fs) -> SimFs via hook H1 (all other histories)", "L1: FileWatcher::process_events replaced by the protocol table of DESIGN.md 4.2"],
         })
     }
     fn shrink_budget(&self, scenario: &Scenario, default: usize) -> usize {
